@@ -1,9 +1,15 @@
 package main
 
+import (
+	"strings"
+
+	"golang.org/x/tools/go/ssa"
+)
+
 var ownExempt = map[string]string{
-	"(*InMemoryTrie).Load":     "nodes under construction from the database are not yet shared with any snapshot",
-	"(*InMemoryTrie).loadNode": "nodes under construction from the database are not yet shared with any snapshot",
-	"loadStorageValue":         "nodes under construction from the database are not yet shared with any snapshot",
+	"(*InMemoryTrie).Load":            "nodes under construction from the database are not yet shared with any snapshot",
+	"(*InMemoryTrie).loadNode":        "nodes under construction from the database are not yet shared with any snapshot",
+	"loadStorageValue":                "nodes under construction from the database are not yet shared with any snapshot",
 	"(*InMemoryTrie).prepForMutation": "the ownership primitive itself; its paths are decided by R-OWN/prep",
 	"(*InMemoryTrie).writeDirtyNode":  "SetClean after the node was persisted only flips the persistence flag Dirty; content and Merkle value are unchanged for every snapshot sharing the node",
 }
@@ -64,4 +70,158 @@ func init() {
 			c.ruleValueCarry(ownExempt)
 			c.min("R-VALUECARRY", 6)
 		})
+}
+
+var trieThreshDirs = []string{"pkg/trie/inmemory", "pkg/trie/node", "pkg/trie/inmemory/proof", "pkg/trie/triedb", "pkg/trie/triedb/codec", "pkg/trie/triedb/proof"}
+
+func init() {
+	register("C06", "threshold agreement between the two trie engines and the specification (R-THRESH) + header variant tables (R-VARIANT)",
+		"Decides that the database-backed engine hashes exactly the values the specification and the in-memory engine hash (len > MaxInlineValue, V1: 33 bytes and more), inlines exactly the child references shorter than 32 bytes, and uses the specification's node-header variant table with an exhaustive decoder. These are necessary for both engines to compute the spec root for every map. "+
+			"Not decided: the insert/remove/commit algorithms of triedb, lookups after commit.",
+		"constants are read from the SSA; MaxInlineValue is abstractly evaluated per version", "DESIGN.md §3 R-THRESH, R-VARIANT; §4 C06",
+		func(c *Ctx) {
+			c.load(append([]string{"pkg/trie"}, trieThreshDirs...)...)
+			c.ruleThresh(trieThreshDirs...)
+			c.min("R-THRESH", 14)
+			c.ruleVariant("pkg/trie/triedb/codec")
+			c.min("R-VARIANT/table", 7)
+		})
+}
+
+func (c *Ctx) ruleNodeEncodeOrder() {
+	c.doc("R-ENCORDER", "node.Encode writes header, partial key, children bitmap, value, children in this order and node.decodeBranch/decodeLeaf read them in the same order")
+	enc := c.fn("pkg/trie/node", "(*Node).Encode")
+	c.ruleSeq("R-ENCORDER", enc, []seqMarker{
+		{"header", callNamed("encodeHeader")},
+		{"partial-key", callNamed("NibblesToKeyLE")},
+		{"children-bitmap", callNamed("ChildrenBitmap")},
+		{"value", callNamed("Blake2bHash", "Encode")},
+		{"children", callNamed("encodeChildrenOpportunisticParallel")},
+	})
+	isDecodeInto := func(field string, want bool) func(in ssa.Instruction) bool {
+		return func(in ssa.Instruction) bool {
+			call, ok := in.(*ssa.Call)
+			if !ok || !strings.HasSuffix(calleeName(&call.Call), "scale.Decoder).Decode") {
+				return false
+			}
+			args := callArgs(&call.Call)
+			isField := false
+			if mi, ok := args[len(args)-1].(*ssa.MakeInterface); ok {
+				if fa, ok := mi.X.(*ssa.FieldAddr); ok && fieldVar(fa) != nil && fieldVar(fa).Name() == field {
+					isField = true
+				}
+			}
+			return isField == want
+		}
+	}
+	dec := c.fn("pkg/trie/node", "decodeBranch")
+	valueStep := func(in ssa.Instruction) bool {
+		return isDecodeInto("StorageValue", true)(in) || callNamed("decodeHashedValue")(in)
+	}
+	c.ruleSeq("R-ENCORDER", dec, []seqMarker{
+		{"partial-key", callNamed("decodeKey")},
+		{"children-bitmap", callNamed("io.ReadFull", "Read")},
+		{"value", valueStep},
+		{"children", isDecodeInto("StorageValue", false)},
+	})
+}
+
+func init() {
+	register("C01", "threshold/variant/encoding-order tables + ownership and value-flag typestate on the SSA of the in-memory trie (R-THRESH, R-VARIANT, R-ENCORDER, R-OWN, R-VALUECARRY, R-KEYMATCH on insert/delete, R-EMPTYROOT)",
+		"Decides structural necessary conditions of `root == spec root for every map and history`: only values longer than MaxInlineValue are hashed (V1: >32 bytes, V0: never) and nodes shorter than 32 bytes are inlined, on every comparison site; the header variant table equals the specification and encoder/decoder agree on the field order; every content write goes through an owned, dirty node (so no cached Merkle value is stale and no other snapshot is touched); a node's MustBeHashed flag always travels with its value; insert/delete walkers only act on exact key matches and only descend through matching partial keys; the empty trie hashes to BLAKE2b-256(0x00). "+
+			"Not decided: that insert/delete produce the canonical radix shape for every history, the hash function itself.",
+		"blake2b and SCALE trusted; spec constants embedded in the checker", "DESIGN.md §3 R-THRESH, R-VARIANT, R-OWN, R-KEYMATCH; §4 C01",
+		func(c *Ctx) {
+			c.load("pkg/trie", "pkg/trie/inmemory", "pkg/trie/node")
+			c.ruleThresh("pkg/trie/inmemory", "pkg/trie/node")
+			c.min("R-THRESH", 10)
+			c.ruleVariant("pkg/trie/node")
+			c.min("R-VARIANT/table", 7)
+			c.ruleNodeEncodeOrder()
+			c.min("R-ENCORDER", 7)
+			c.ruleOwn(ownExempt)
+			c.ruleOwnPrep()
+			c.ruleOwnFresh(ownExempt)
+			c.min("R-OWN", 30)
+			c.ruleValueCarry(ownExempt)
+			c.min("R-VALUECARRY", 6)
+			c.ruleNilValue("pkg/trie/inmemory")
+			c.min("R-NILVALUE", 7)
+			c.ruleKeyMatch([]walkerSpec{trieWalkers[2], trieWalkers[3], trieWalkers[9]})
+			c.ruleEmptyRoot()
+		})
+}
+
+// R-EMPTYROOT: trie.EmptyHash = blake2b(0x00) and Hash() returns it for the nil root.
+func (c *Ctx) ruleEmptyRoot() {
+	c.doc("R-EMPTYROOT", "trie.EmptyHash is initialised as MustBlake2bHash([]byte{0}) and (*InMemoryTrie).Hash returns it when the root is nil")
+	sp := c.ssaPkg("pkg/trie")
+	if sp == nil {
+		return
+	}
+	initf := sp.Func("init")
+	ok := false
+	if initf != nil {
+		eachInstr(initf, func(_ *ssa.BasicBlock, _ int, in ssa.Instruction) {
+			st, isSt := in.(*ssa.Store)
+			if !isSt {
+				return
+			}
+			g, isG := st.Addr.(*ssa.Global)
+			if !isG || g.Name() != "EmptyHash" {
+				return
+			}
+			call, isCall := st.Val.(*ssa.Call)
+			if !isCall || !strings.HasSuffix(calleeName(&call.Call), "MustBlake2bHash") {
+				return
+			}
+			// argument: slice of a 1-element array storing 0
+			if sl, isSl := call.Call.Args[0].(*ssa.Slice); isSl {
+				if al, isAl := sl.X.(*ssa.Alloc); isAl {
+					n, zero := 0, true
+					for _, r := range *al.Referrers() {
+						if ia, isIA := r.(*ssa.IndexAddr); isIA {
+							for _, r2 := range *ia.Referrers() {
+								if s2, isS2 := r2.(*ssa.Store); isS2 {
+									n++
+									if k, isK := constInt(s2.Val); !isK || k != 0 {
+										zero = false
+									}
+								}
+							}
+						}
+					}
+					ok = n == 1 && zero
+				}
+			}
+		})
+	}
+	var p = sp.Pkg.Scope().Lookup("EmptyHash").Pos()
+	c.ob("R-EMPTYROOT", "pkg/trie.EmptyHash", p, ok, "EmptyHash must be the BLAKE2b-256 hash of the single byte 0x00")
+	h := c.fn(inmemDir, "(*InMemoryTrie).Hash")
+	if h == nil {
+		return
+	}
+	okH := false
+	eachInstr(h, func(b *ssa.BasicBlock, _ int, in ssa.Instruction) {
+		u, isU := in.(*ssa.UnOp)
+		if !isU {
+			return
+		}
+		if g, isG := u.X.(*ssa.Global); !isG || g.Name() != "EmptyHash" {
+			return
+		}
+		if _, isRet := b.Instrs[len(b.Instrs)-1].(*ssa.Return); !isRet {
+			return
+		}
+		okH = guardedBy(b, func(cond ssa.Value, truth bool) bool {
+			e, neq, isN := nilCmp(cond)
+			if !isN {
+				return false
+			}
+			_, isRoot := isFieldLoadNamed(e, "root")
+			return isRoot && truth != neq
+		})
+	})
+	c.ob("R-EMPTYROOT", "(*InMemoryTrie).Hash:nil-root", h.Pos(), okH, "Hash() must return trie.EmptyHash exactly when the root is nil")
 }
